@@ -597,6 +597,43 @@ class Builder:
             return self.add("_triangle_intersection.newton_refine", None, [arr(tn), d, 0.5, 0.25, 0.25, 0.25])
         return self.add("_triangle_intersection.locate_point", None, [arr(tn), d, tn[0][0], tn[1][0]])
 
+    def op_reused_buffers(self):
+        """helper calls whose array arguments are caller-owned buffers that are refilled and handed over again: the same
+        array objects carry other values than in an earlier call (a cache keyed on identity instead of value shows here)"""
+        rnd = self.rnd
+        TH, CH = "_triangle_helpers.", "_curve_helpers."
+        f = rnd.choice(["specialize_triangle", "specialize_triangle", "evaluate_multi", "evaluate_barycentric_multi",
+                        "evaluate_cartesian_multi", "locate_point"])
+
+        def buf(name, a):
+            return {"a": a, "layout": "F", "buf": name}
+        if f == "specialize_triangle":
+            d = rnd.choice((2, 3, 4))
+            while True:
+                p = [(rnd.randint(-4, 4), rnd.randint(-4, 4)) for _ in range(3)]
+                if abs((p[1][0] - p[0][0]) * (p[2][1] - p[0][1]) - (p[1][1] - p[0][1]) * (p[2][0] - p[0][0])) >= 2:
+                    break
+            tn = wavy_tri(d, *p, rnd.choice((0, 0.125)))
+            ws = rnd.choice([([1.0, 0.0, 0.0], [0.5, 0.5, 0.0], [0.5, 0.0, 0.5]), ([0.0, 0.5, 0.5], [0.5, 0.0, 0.5], [0.5, 0.5, 0.0]),
+                             ([0.5, 0.5, 0.0], [0.0, 1.0, 0.0], [0.0, 0.5, 0.5]), ([0.25, 0.5, 0.25], [0.0, 0.0, 1.0], [0.75, 0.25, 0.0]),
+                             ([0.5, 0.0, 0.5], [0.0, 0.5, 0.5], [0.0, 0.0, 1.0])])
+            return self.add(TH + "specialize_triangle", None, [arr(tn), d, buf("wa", ws[0]), buf("wb", ws[1]), buf("wc", ws[2])])
+        if f == "evaluate_multi":
+            n = rnd.randint(2, 6)
+            return self.add(CH + "evaluate_multi", None, [arr(int_nodes(rnd, 2, n)), buf("sv", self.params(4))])
+        if f == "locate_point":
+            n = rnd.randint(2, 5)
+            xs = [float(k * 2 + rnd.randint(0, 1)) for k in range(n)]
+            return self.add(CH + "locate_point", None, [arr([xs, [float(rnd.randint(-3, 3)) for _ in range(n)]]),
+                                                        buf("pt", [[rnd.choice(xs)], [float(rnd.randint(-3, 3))]])])
+        d = rnd.choice((1, 2, 3))
+        tn = wavy_tri(d, (0, 0), (4, 0), (0, 4), rnd.choice((0, 0.125)))
+        if f == "evaluate_barycentric_multi":
+            rows = rnd.sample([[0.25, 0.5, 0.25], [1.0, 0.0, 0.0], [0.5, 0.125, 0.375], [0.0, 0.5, 0.5], [0.125, 0.125, 0.75]], 3)
+            return self.add(TH + "evaluate_barycentric_multi", None, [arr(tn), d, buf("bary", rows), 2])
+        rows = rnd.sample([[0.25, 0.5], [0.0, 0.0], [0.125, 0.75], [0.5, 0.5], [0.375, 0.125]], 3)
+        return self.add(TH + "evaluate_cartesian_multi", None, [arr(tn), d, buf("cart", rows), 2])
+
     def op_state(self):
         """speedup only: the management entry points of the hidden state"""
         rnd = self.rnd
@@ -629,7 +666,7 @@ class Builder:
         h = self.heavy
         table = [(self.op_curve_intersect, 22 * h), (self.op_all_intersections, 4 * h), (self.op_tri_intersect, 12 * h),
                  (self.op_tri_raw, 3 * h), (self.op_tri_lattice, 30 * h), (self.op_newton_stress, 10 * h), (self.op_curve_method, 18), (self.op_tri_method, 14), (self.op_polygon, 4),
-                 (self.op_helper, 14), (self.op_repeat, 9 * h), (self.op_object_chain, 10)]
+                 (self.op_helper, 14), (self.op_repeat, 9 * h), (self.op_object_chain, 10), (self.op_reused_buffers, 8)]
         if self.speedup:
             table.append((self.op_state, 5))
         tot = sum(w for _, w in table)
